@@ -162,6 +162,26 @@ func runC08(env *Env, tier string) {
 			s.P.Collect()
 			env.Stat("probe_send_any_time")
 		}
+		// the store refuses the next write that assigns an outbound number (disk full, database gone):
+		// whatever the engine was about to send cannot be sent
+		if ch.Chance("storerefusal", 1, 12) {
+			fired := false
+			s.E.SF.Fail = func(op string, n int) error {
+				if fired {
+					return nil
+				}
+				fired = true
+				env.Stat("fault_store_write_refused")
+				return fmt.Errorf("injected: store refuses %s %d", op, n)
+			}
+		} else {
+			s.E.SF.Fail = nil
+		}
+		// a connection whose first message is not a Logon
+		if !s.P.Connected() && !s.E.stopped && ch.Chance("nonlogonfirst", 1, 5) {
+			c08NonLogonFirst(env, s, a)
+			continue
+		}
 		if ch.Chance("pipelinedpair", 1, 6) && a.ensureSession() && s.E.App.LoggedOn() {
 			c08PipelinedPair(env, s, a)
 			continue
@@ -173,6 +193,7 @@ func runC08(env *Env, tier string) {
 			CheckC08(env, s, false)
 		}
 	}
+	s.E.SF.Fail = nil
 	// let pending logout/logon timers run out, then judge
 	env.Advance(3 * 1e9)
 	s.P.Collect()
@@ -230,5 +251,50 @@ func c08PipelinedPair(env *Env, s *Sut, a *Adv) {
 	env.Advance(20 * time.Millisecond)
 	env.AddAnchor()
 	s.E.App.SlowNext.Store(0)
+	p.Collect()
+}
+
+// c08NonLogonFirst opens a connection and sends something other than a Logon first (for an initiator: in
+// answer to its Logon), well-formed or failing verification in an ordinary way.
+func c08NonLogonFirst(env *Env, s *Sut, a *Adv) {
+	ch, p := env.Ch, s.P
+	p.EP = nil
+	if !p.Connect(20 * time.Second) {
+		return
+	}
+	p.OutSeq = a.engT()
+	o := MsgOpt{}
+	switch ch.Choose("firstdefect", 4) {
+	case 1:
+		o.NoTime = true // SendingTime missing: an ordinary session-level reject reason
+	case 2:
+		o.BadTime = "yesterday"
+	case 3:
+		o.PossDup, o.NoOrigTime = true, true
+	}
+	kind := ch.Choose("firstkind", 5)
+	env.Stat("probe_first_message_not_logon_" + []string{"logout", "app", "testrequest", "heartbeat", "resendrequest"}[kind])
+	switch kind {
+	case 0:
+		p.Send("5", nil, o)
+	case 1:
+		p.Send("D", AppBody(p.NextID()), o)
+	case 2:
+		p.Send("1", []wire.Field{wire.F(112, "F"+p.NextID())}, o)
+	case 3:
+		p.Send("0", nil, o)
+	case 4:
+		p.Send("2", []wire.Field{wire.FI(7, 1), wire.FI(16, 0)}, o)
+	}
+	// whatever state the engine is in now, the application and the peer carry on
+	if p.Connected() {
+		if ch.Chance("sendafterfirst", 1, 2) {
+			a.sendN++
+			s.E.Send("D", AppBody(fmt.Sprintf("q%d", a.sendN)))
+			env.Settle()
+		}
+		p.OutSeq = a.engT()
+		p.Send("D", AppBody(p.NextID()), MsgOpt{})
+	}
 	p.Collect()
 }
